@@ -44,9 +44,9 @@ claim("C11",
   "For 0..5, 7, 8 (9 in the thorough tier) keyframes in any insertion order with fully symbolic positions: keyframes come out sorted, boundary_times[i] is keyframe i's position, nothing lost or duplicated, timing reaches the TimeScale. Bounded in the number of keyframes (labelled bounded, not counted as proved); the downstream contracts (C01) take the sorted list, so equal sorted lists give equal timelines.",
   "bounded: N in {0..5, 7, 8, 9}. " + KNOTE, "DESIGN.md section 5 C11")
 claim("C12",
-  "Kani harnesses on MergedTimeline over arbitrary abstract component timelines (0..5 components)",
-  "update = components applied in order (later wins), start_with reaches each once, delay=min, duration=max, repeat=max (Repeat is a total order), cycle=common-or-None, clone equivalent, single wrap transparent, disjoint components commute. Bounded in the number of components (0..5), components themselves arbitrary.",
-  "bounded: <=5 components; abstract TL. " + KNOTE, "DESIGN.md section 5 C12")
+  "Verus loop-invariant proof of MergedTimeline::update for any number of components + Kani harnesses on MergedTimeline over arbitrary abstract component timelines (0..5 components)",
+  "update = components applied in order for EVERY number of components (Verus, extracted loop); bounded (Kani, 0..5): update = in order (later wins), start_with reaches each once, delay=min, duration=max, repeat=max (Repeat is a total order), cycle=common-or-None, clone equivalent, single wrap transparent, disjoint components commute. Bounded in the number of components (0..5), components themselves arbitrary.",
+  "update: unbounded (Verus); the rest bounded: <=5 components; abstract TL. " + KNOTE, "DESIGN.md section 5 C12")
 claim("C13",
   "Kani per-variant harnesses on Easing::calc (endpoints exact, dispatch == published control points for all x, Back range), known finding for timing-function semantics",
   "All 29 built-ins: calc(0)==0 and calc(1)==1 exactly; for every f32 x in [0,1] each variant computes the Bezier polynomial of its PUBLISHED control points (table typed from CSS/easings.net, not from easing.rs); Linear is the identity; custom easings are used as given. The timing-function reading (value at horizontal position x) is a recorded known finding. Range of non-Back curves / monotonicity / mirror are not decided.",
